@@ -129,7 +129,7 @@ func TestC15(t *testing.T) {
 			old := it.H
 			// key rotations after the history: the registry then holds current and retired entries
 			var retired [][]byte
-			if len(c.Rot) > 0 {
+			if len(c.Rot) > 0 || len(c.Gone) > 0 {
 				if err := old.Begin(old.Height+1, old.Time+5); err != nil {
 					rec.Label("stopped-by:rotation-block")
 					return nil
@@ -158,6 +158,14 @@ func TestC15(t *testing.T) {
 						retired = append(retired, oldEth.Bytes(), []byte(oldOrch))
 						rec.Label("with-rotated-keys")
 					}
+				}
+				for _, g := range c.Gone {
+					v := g % len(old.Staking.Vals)
+					if v == 0 {
+						continue
+					}
+					old.QueueStaking(func(s *sim.SimStaking) { s.Vals[v].Removed, s.Vals[v].Bonded = true, false })
+					rec.Label("with-validator-gone-from-staking")
 				}
 				if err := old.End(); err != nil {
 					rec.Label("stopped-by:rotation-block")
